@@ -1,9 +1,12 @@
 (* Props/C10.v -- property C10: perturbed variables honour magnitudes and boundary-type semantics.
    Only statements; each is closed by a lemma of Proofs/Bounds.v.  [apply_bounds_1] is the model of one
    component of ropt's _apply_bounds with the MIRROR_REPEAT constant regenerated from the source;
-   [perturb] is _perturb_variables on the (realizations x perturbations x variables) array. *)
+   [perturb] is _perturb_variables on the (realizations x perturbations x variables) array.
+   The last section (C10 x C11, lemmas in Proofs/BoundsScaling.v) identifies this boundary function with the copy
+   C11 keeps in Model/Transforms.v ([T.apply_bounds_1], boundary types decoded to an inductive [T.btype]) and proves
+   it equivariant under the variable scaler. *)
 From Coq Require Import QArith Qminmax ZArith List Bool Arith Lia.
-From Ropt Require Import Base.Num Base.ListX Gen.Generated Model.Bounds Proofs.Bounds.
+From Ropt Require Import Base.Num Base.ListX Gen.Generated Model.Bounds Proofs.Bounds Proofs.BoundsScaling.
 Import ListNotations.
 Open Scope Q_scope.
 
@@ -172,6 +175,87 @@ Example C10_example :
     = MagOk [((5 - 1) / 2 - (1 - 1) / 2) * Q_ 1 2; 2 / 4].
 Proof. vm_compute. repeat split; try reflexivity; lia. Qed.
 
+(* ---- C10 x C11: one boundary-handling model, equivariant under the variable scaler ------------------------------ *)
+(* the boundary function of this file and the copy C11 reasons about (T = Model/Transforms.v) return the same
+   rational: for every repeat count, every type code ([bt_of]: MIRROR_BOTH -> BMirror, NONE -> BNone, anything else
+   -> BTrunc), ALL extended-real bounds -- also improper ones, where the two files evaluate y < +inf / y > -inf
+   differently (true here, as numpy; false there, by assumption) -- and every value *)
+Theorem C10_one_boundary_model : forall rep t lb ub y,
+  apply_bounds_gen rep t lb ub y = T.apply_bounds_1 rep (bt_of t) lb ub y.
+Proof. exact apply_bounds_models_agree. Qed.
+
+(* the type encodings: on every code C11 decodes the two readings coincide; a code outside the enumeration has no
+   value in C11's model and is clipped (TRUNCATE_BOTH semantics, numpy's np.where(types == NONE, v, clip v)) here;
+   and the pointwise comparisons differ exactly at an improper bound *)
+Theorem C10_boundary_encodings : forall t,
+  (forall bt, T.btype_of_code t = Some bt ->
+     bt_of t = bt /\ forall lb ub y, apply_bounds_1 t lb ub y = T.apply_bounds_1 mirror_repeat bt lb ub y) /\
+  (T.btype_of_code t = None -> forall rep lb ub y, apply_bounds_gen rep t lb ub y = clip lb ub y) /\
+  (forall y lb, lb <> PInf -> below y lb = T.below y lb) /\ (forall y ub, ub <> NInf -> above y ub = T.above y ub) /\
+  (forall y, below y PInf = true /\ T.below y PInf = false /\ above y NInf = true /\ T.above y NInf = false).
+Proof.
+  intros t. split; [intros bt H; split; [apply bt_of_decoded, H | intros; apply apply_bounds_1_models_agree, H]|].
+  split; [intros H rep lb ub y; apply apply_bounds_undecoded, H|].
+  split; [exact below_agree|]. split; [exact above_agree | exact below_above_differ].
+Qed.
+
+(* equivariance: the positive affine change of variable x |-> (x - o) / s applied to the value and to both bounds
+   (infinite bounds stay infinite) commutes with the boundary handling -- NONE, TRUNCATE_BOTH, MIRROR_BOTH with
+   all its repeated reflections and the clip fall-back, any other code -- one component and whole vectors *)
+Theorem C10_bounds_equivariant : forall s o t lb ub y, 0 < s ->
+  apply_bounds_1 t (eb_to_opt s o lb) (eb_to_opt s o ub) (to_opt1 s o y) == to_opt1 s o (apply_bounds_1 t lb ub y).
+Proof. exact apply_bounds_1_equivariant. Qed.
+Theorem C10_bounds_equivariant_vector : forall ts lbs ubs ss os ys, Forall (fun s => 0 < s) ss ->
+  Forall2 Qeq (apply_bounds ts (bounds_to_opt ss os lbs) (bounds_to_opt ss os ubs) (vec_to_opt ss os ys))
+              (vec_to_opt ss os (apply_bounds ts lbs ubs ys)).
+Proof. exact apply_bounds_vec_equivariant. Qed.
+
+(* the perturbed component computed in optimizer units -- point (x - o) / s, the stored magnitude of
+   C10_magnitude_scaled (m / s for ABSOLUTE, fraction of the transformed range for RELATIVE), transformed bounds --
+   mapped back with from_optimizer is the component perturbed in the user's units with the user's magnitude:
+   C10_scaled_pre_value carried through the boundary handling *)
+Theorem C10_perturbed_component_user_units : forall p t l u s o m x sv, 0 < s ->
+  (Z.eqb p pt_relative = true -> efinite l && efinite u = true) ->
+  from_opt1 s o (apply_bounds_1 t (eb_to_opt s o l) (eb_to_opt s o u)
+                   (to_opt1 s o x + magnitude_1s p (eb_to_opt s o l) (eb_to_opt s o u) s m * sv))
+  == apply_bounds_1 t l u (x + magnitude_1 p l u m * sv).
+Proof. exact perturbed_component_user_units. Qed.
+(* ... and on the whole (R, P, V) array: entry by entry the array perturbed in the optimizer domain maps back to
+   the array perturbed in the user domain *)
+Theorem C10_perturbed_array_user_units : forall ts lbs ubs ss os x pts ms samples r p v t l u s o xv pt m sv,
+  nth_error ts v = Some t -> nth_error lbs v = Some l -> nth_error ubs v = Some u ->
+  nth_error ss v = Some s -> nth_error os v = Some o -> nth_error x v = Some xv ->
+  nth_error pts v = Some pt -> nth_error ms v = Some m -> nth3 samples r p v = Some sv ->
+  0 < s -> (Z.eqb pt pt_relative = true -> efinite l && efinite u = true) ->
+  exists q q',
+    nth3 (perturb ts (bounds_to_opt ss os lbs) (bounds_to_opt ss os ubs) (vec_to_opt ss os x)
+            (magnitudes_vec_s pts (bounds_to_opt ss os lbs) (bounds_to_opt ss os ubs) ss ms) samples) r p v = Some q /\
+    nth3 (perturb ts lbs ubs x (magnitudes_vec pts lbs ubs ms) samples) r p v = Some q' /\
+    from_opt1 s o q == q'.
+Proof. exact perturb_scaled_user. Qed.
+
+(* non-vacuity of the scaling section: scale 2, offset 1, user bounds [1, 5] and (-inf, 5], MIRROR_BOTH: the relative
+   magnitude 1/2 (2 in user units) with sample 15/4 takes 3 to 21/2, more than one width above the upper bound, which
+   is reflected at 5 (-> -1/2) and again at 1 (-> 5/2); the optimizer-domain computation (point 1, bounds [0, 2],
+   stored magnitude 1) gives 3/4, which maps back to 5/2; on the half-open interval the same overshoot (absolute
+   magnitude 4, stored 4 / s) is reflected once; the undecodable code 7 is clipped; at the improper lower bound +inf
+   the two models still return the same value *)
+Example C10_scaling_example :
+  let s := 2 in let o := 1 in
+  (0 < s) /\
+  Qeqb (magnitude_1s pt_relative (eb_to_opt s o (Fin 1)) (eb_to_opt s o (Fin 5)) s (Q_ 1 2) * s)
+       (magnitude_1 pt_relative (Fin 1) (Fin 5) (Q_ 1 2)) = true /\
+  Qeqb (apply_bounds_1 bt_mirror (Fin 1) (Fin 5) (3 + magnitude_1 pt_relative (Fin 1) (Fin 5) (Q_ 1 2) * Q_ 15 4)) (Q_ 5 2) = true /\
+  Qeqb (from_opt1 s o (apply_bounds_1 bt_mirror (eb_to_opt s o (Fin 1)) (eb_to_opt s o (Fin 5))
+          (to_opt1 s o 3 + magnitude_1s pt_relative (eb_to_opt s o (Fin 1)) (eb_to_opt s o (Fin 5)) s (Q_ 1 2) * Q_ 15 4)))
+       (Q_ 5 2) = true /\
+  Qeqb (from_opt1 s o (apply_bounds_1 bt_mirror (eb_to_opt s o NInf) (eb_to_opt s o (Fin 5)) (to_opt1 s o 3 + (4 / s) * Q_ 15 4)))
+       (apply_bounds_1 bt_mirror NInf (Fin 5) (3 + 4 * Q_ 15 4)) = true /\
+  T.btype_of_code bt_mirror = Some T.BMirror /\ T.btype_of_code 7%Z = None /\
+  apply_bounds_1 7%Z (Fin 1) (Fin 5) 9 = 5 /\
+  apply_bounds_1 bt_mirror PInf (Fin 5) 9 = T.apply_bounds_1 mirror_repeat T.BMirror PInf (Fin 5) 9.
+Proof. vm_compute. repeat split; reflexivity. Qed.
+
 Print Assumptions C10_formula.
 Print Assumptions C10_samples_added.
 Print Assumptions C10_shape.
@@ -191,3 +275,9 @@ Print Assumptions C10_magnitudes_rejected.
 Print Assumptions C10_relative.
 Print Assumptions C10_relative_rejected.
 Print Assumptions C10_array_laws.
+Print Assumptions C10_one_boundary_model.
+Print Assumptions C10_boundary_encodings.
+Print Assumptions C10_bounds_equivariant.
+Print Assumptions C10_bounds_equivariant_vector.
+Print Assumptions C10_perturbed_component_user_units.
+Print Assumptions C10_perturbed_array_user_units.
